@@ -28,7 +28,9 @@ from harness.lib import coqbuild, mems3, protocol as P, sched as S
 from harness.props import c01
 
 LEVEL = "proof"
-THEOREMS = ["C18_single_init", "C18_pointer_stable", "C18_existing_never_reinitialised", "C18_same_table", "C18_skeleton_regenerated"]
+THEOREMS = ["C18_single_init", "C18_exactly_one_init", "C18_pointer_stable", "C18_existing_never_reinitialised", "C18_existing_versions",
+            "C18_race_leaves_one_table", "C18_race_then_pointer_loss", "C18_same_table_published", "C18_same_table_partial",
+            "C18_same_table_full_refuted", "C18_skeleton_regenerated"]
 REQ = ["DS.Model.Commit", "DS.Model.Create"]
 MANIFEST_ENTRY = {
     "level_text": "C18 theorems proved in Coq for every interleaving of any number of creators/openers (single initialisation, "
@@ -55,7 +57,7 @@ def yield_filter(op: str, path: str, phase: tuple) -> bool:
         return True
     if op == "list_files" and path.rstrip("/") == "metadata":
         return True
-    if op == "write_file" and pcs == "meta":
+    if op in ("write_file", "delete_file") and pcs == "meta":
         return True
     return False
 
@@ -228,6 +230,19 @@ def run_case(ctx, backend: str, init: str, kinds: List[str], chooser_factory, re
         out["pre"] = pre
         out["meta_files"] = sorted(k for k in (store.objects if store is not None else []) if "/metadata/v" in k) if store is not None else \
             sorted(f for f in os.listdir(os.path.join(root, "metadata")) if f.startswith("v") and f.endswith(".metadata.json"))
+        # which caller's initialisation wrote each identity still on storage (99 = the table that existed before)
+        wrote_path = {e["path"].rsplit("/", 1)[-1]: int(e["actor"][1:]) for e in sc.log
+                      if e["op"] == "write_file" and P.path_class(e["path"]) == "meta" and "MetadataManager.initialize_table" in e["phase"]}
+        out["uuid_writer"] = {}
+        for mf in out["meta_files"]:
+            base = mf.rsplit("/", 1)[-1]
+            if base in wrote_path:
+                try:
+                    out["uuid_writer"][json.loads(fetch("metadata/" + base))["table_uuid"]] = wrote_path[base]
+                except Exception:       # noqa: BLE001
+                    pass
+        if pre is not None:
+            out["uuid_writer"][pre["meta"]["table_uuid"]] = 99
         try:
             out["final"] = P.read_table_independent(fetch)
         except Exception as e:
@@ -245,6 +260,21 @@ def run_case(ctx, backend: str, init: str, kinds: List[str], chooser_factory, re
                         out["final_via_recovery"] = best
                     except Exception as e2:
                         out["final"] = {"error": repr(e2)[:200]}
+        # EPILOGUE (every run that ended on a readable table with a pointer): the state this run LEFT BEHIND is an initial
+        # state of its own -- lose the pointer now and open the table again.  What the library then serves (identity, persisted
+        # schemas, rows) is compared by the oracle with the table as it was before the pointer was lost.
+        out["after_pointer_loss"] = None
+        if "error" not in out["final"] and "final_via_recovery" not in out and not out["deadlock"] and out.get("died") is None:
+            try:
+                drop_pointer()
+                t2 = datashard.load_table(root)
+                md2 = t2.metadata_manager.refresh()
+                out["after_pointer_loss"] = {
+                    "table_uuid": md2.table_uuid, "current_schema_id": md2.current_schema_id,
+                    "schemas": [(sch.schema_id, [(f.get("id"), f.get("name"), f.get("type")) for f in sch.fields]) for sch in md2.schemas],
+                    "rows": sorted(r.get("x") for r in t2.scan())}
+            except Exception as e3:     # noqa: BLE001
+                out["after_pointer_loss"] = {"error": repr(e3)[:200]}
     return out
 
 
@@ -287,6 +317,24 @@ def oracle(out: Dict[str, Any]) -> Optional[str]:
     elif any(k in ("create_append", "create_b_append") for k in out["kinds"]):
         if sorted(r["x"] for r in fin["rows"]) != [4242] * sum(1 for k in out["kinds"] if k in ("create_append", "create_b_append")):
             return f"first appender's rows not in the table: {fin['rows']}"
+    return pointer_loss_oracle(out)
+
+
+def pointer_loss_oracle(out: Dict[str, Any]) -> Optional[str]:
+    """The table a run left behind, with its pointer then lost, is still THAT table (identity, persisted schemas, data)."""
+    apl, fin = out.get("after_pointer_loss"), out["final"]
+    if apl is None:
+        return None
+    if "error" in apl:
+        return f"the table this run left behind cannot be opened once its pointer is lost: {apl['error']}"
+    if apl["table_uuid"] != fin["meta"]["table_uuid"]:
+        return (f"the table this run left behind has identity {fin['meta']['table_uuid']}; once its pointer is lost, a fresh handle is on "
+                f"identity {apl['table_uuid']}: the identity of an existing table was replaced (metadata files: {out['meta_files']})")
+    want = [(sch["schema_id"], [(f.get("id"), f.get("name"), f.get("type")) for f in sch["fields"]]) for sch in fin["meta"]["schemas"]]
+    if [(i, [tuple(x) for x in fs]) for i, fs in apl["schemas"]] != want or apl["current_schema_id"] != fin["meta"]["current_schema_id"]:
+        return f"once the pointer is lost the persisted schema of the table is replaced: {apl['schemas']} vs {want}"
+    if apl["rows"] != sorted(r["x"] for r in fin["rows"]):
+        return f"once the pointer is lost the committed data changes: {apl['rows']} vs {sorted(r['x'] for r in fin['rows'])}"
     return None
 
 
@@ -342,6 +390,19 @@ def project(out: Dict[str, Any]) -> Tuple[List[Tuple[int, str]], List[str]]:
             items.append([idx, ai, "CMetaW"])
         elif in_init and op in ("write_file", "write_file_cas") and pcs == "hint":
             items.append([idx, ai, f"CPtrCreate {'true' if result == 'ok' else 'false'}"])
+            if result != "ok":
+                s["stage"] = "conflict"
+        elif in_init and s["stage"] == "conflict" and is_resolve_op:
+            # the refused creator resolves the table again (_is_table_in_effect): "this one" unless a removal of its v0 follows
+            if s.get("recheck") is None:
+                s["recheck"] = [idx, ai, "CRecheck true"]
+                items.append(s["recheck"])
+            else:
+                s["recheck"][0] = idx
+        elif in_init and s["stage"] == "conflict" and op == "delete_file" and pcs == "meta":
+            if s.get("recheck") is not None:
+                s["recheck"][2] = "CRecheck false"
+            items.append([idx, ai, "CDiscard"])
         elif in_init and op == "LockRel":
             items.append([idx, ai, "CRelease"])
             s["stage"] = "adopt"
@@ -365,11 +426,14 @@ def project(out: Dict[str, Any]) -> Tuple[List[Tuple[int, str]], List[str]]:
 def model_expr(out: Dict[str, Any], evs: List[Tuple[int, str]]) -> str:
     n = len(out["kinds"])
     cfgs = "{| cas := %s; lockkind := %s |}" % (("true", "GrantAll") if out["backend"] == "s3cas" else ("false", "Excl"))
-    init = {"absent": "absent", "healthy": "existing 99%nat false", "pointer_lost": "existing 99%nat true", "v0_pointer_lost": "existing 99%nat true"}[out["init"]]
+    # the existing table: owner 99, metadata versions 0..k on storage (healthy / pointer_lost: one commit was made)
+    init = {"absent": "absent", "healthy": "existing_n 99%nat 1%nat false", "pointer_lost": "existing_n 99%nat 1%nat true",
+            "v0_pointer_lost": "existing_n 99%nat 0%nat true"}[out["init"]]
     ev = "[" + "; ".join(f"{{| ce_actor := {ai}%nat; ce_kind := {k} |}}" for ai, k in evs) + "]"
+    code = "(fun o => match o with Some u => Z.of_nat (S (S u)) | None => 1 end)"
     return (f"match crun_strict {cfgs} ({init}) {ev} 0%nat with "
-            f"| inl w => (1, (Z.of_nat (List.length (c_creates w)), Z.of_nat (List.length (c_files w)), "
-            f"map (fun a => Z.of_nat (adopted_code (c_pc w a))) (seq 0%nat {n}%nat))) | inr i => (0, (Z.of_nat i, 0, [])) end")
+            f"| inl w => (1, (Z.of_nat (List.length (c_creates w)), Z.of_nat (List.length (live_files w)), "
+            f"[{code} (table_id w); {code} (table_id (lose_ptr w))])) | inr i => (0, (Z.of_nat i, 0, [])) end")
 
 
 def explore(ctx, backend: str, init: str, kinds: List[str], max_preempt: int, limit: int):
@@ -499,21 +563,36 @@ def run(ctx) -> None:
         vals = []
     two_files = 0
     for (backend, init, kinds, dev, out, evs), val in zip(metas, vals):
-        ok, (ncreates, nfiles, codes) = val
+        ok, (ncreates, nlive, codes) = val
         if ok != 1:
             bad.append({"backend": backend, "init": init, "kinds": kinds, "schedule": out["schedule"], "rejected_event_index": ncreates,
                         "events": evs[max(0, ncreates - 5): ncreates + 1]})
             continue
         impl_creates = sum(1 for e in out["log"] if "MetadataManager.initialize_table" in e["phase"] and e["op"] in ("write_file", "write_file_cas")
                            and P.path_class(e["path"]) == "hint" and e["result"] == "ok")
-        impl_files = len(out["meta_files"]) - (0 if "create_append" not in kinds else sum(1 for f in out["meta_files"] if "/v1-" in f or f.startswith("v1-")))
         impl_v0 = sum(1 for f in out["meta_files"] if f.rsplit("/", 1)[-1].startswith("v0"))
         two_files += 1 if impl_v0 > 1 else 0
-        model_v0 = nfiles if init == "absent" else nfiles
-        if ncreates != impl_creates or (init == "absent" and model_v0 != impl_v0):
-            bad.append({"backend": backend, "init": init, "kinds": kinds, "schedule": out["schedule"],
-                        "model": {"creates": ncreates, "v0_files": model_v0}, "impl": {"creates": impl_creates, "v0_files": impl_v0}})
+        model = {"creates": ncreates, "table": codes[0], "table_after_pointer_loss": codes[1]}
+        impl: Dict[str, Any] = {"creates": impl_creates}
+        if init == "absent":
+            # metadata files left on storage (an appender's v1.. are not the creation machine's)
+            model["v0_files_left"], impl["v0_files_left"] = nlive, impl_v0
+
+        def code_of(u: Optional[str]) -> Optional[int]:
+            return None if u is None else (out["uuid_writer"][u] + 2 if u in out["uuid_writer"] else -1)
+        fin, apl = out["final"], out.get("after_pointer_loss")
+        impl["table"] = code_of(fin["meta"]["table_uuid"]) if "error" not in fin else 1
+        committed = any(not f.rsplit("/", 1)[-1].startswith("v0") for f in out["meta_files"]) and init == "absent"
+        if apl is not None and "error" not in apl and not committed:
+            # (a first appender's commit wrote v1: recovery prefers it to every v0; commits are not in the creation machine --
+            # the oracle has judged the run)
+            impl["table_after_pointer_loss"] = code_of(apl["table_uuid"])
+        else:
+            model.pop("table_after_pointer_loss")
+        if model != impl:
+            bad.append({"backend": backend, "init": init, "kinds": kinds, "schedule": out["schedule"], "model": model, "impl": impl})
     ctx.stats["runs_with_two_v0_files"] = two_files
+    ctx.stats["runs_where_a_refused_creator_removed_its_v0"] = sum(1 for m in metas if any(k == "CDiscard" for _a, k in m[5]))
     ctx.stats["runs_outside_creation_model_commit_created_pointer"] = outside[0]
     if metas:
         b, i, k, d, o, e = metas[0]
